@@ -1278,8 +1278,28 @@ func c17Clamp(p *Prog, r *Report) {
 		ok := false
 		ast.Inspect(d.Decl.Body, func(x ast.Node) bool {
 			if c, isC := x.(*ast.CallExpr); isC && p.callIs(d.Pkg, c, "internal/usecase/dir.New") && len(c.Args) >= 1 {
-				if strings.HasSuffix(types.ExprString(c.Args[0]), "Storage.MaxDirCount") {
-					ok = true
+				// the MaxDirCount field of config.Storage, reached from the container (directly or through a local)
+				arg := ast.Unparen(c.Args[0])
+				if o := objOf(d.Pkg.TypesInfo, arg); o != nil {
+					if def := singleDefIn(d.Pkg.TypesInfo, d.Decl.Body, o); def != nil {
+						arg = ast.Unparen(def)
+					} else {
+						ast.Inspect(d.Decl.Body, func(y ast.Node) bool {
+							if vs, isVS := y.(*ast.ValueSpec); isVS {
+								for i, nm := range vs.Names {
+									if d.Pkg.TypesInfo.Defs[nm] == o && i < len(vs.Values) {
+										arg = ast.Unparen(vs.Values[i])
+									}
+								}
+							}
+							return true
+						})
+					}
+				}
+				if sel, isSel := arg.(*ast.SelectorExpr); isSel {
+					if fv, isF := d.Pkg.TypesInfo.Uses[sel.Sel].(*types.Var); isF && fv.IsField() && fv.Name() == "MaxDirCount" && fv.Pkg() != nil && shortPath(fv.Pkg().Path()) == "config" {
+						ok = true
+					}
 				}
 			}
 			return true
